@@ -104,6 +104,11 @@ def decode(n, P, Q, mode):
         with core.quiet():
             # the verbosity argument is cosmetic: the decoding may not depend on it (mode 2 is what mapOnNetwork(verbose=True) uses)
             e["verbose"] = (0, 0, 2, 3, 1, 0, 2, 0)[_CALLS[0] % 8]
+            if _CALLS[0] % 4 == 1:
+                # history: the track was decoded before (with another model over the same candidates): the output
+                # features already exist and must be replaced by the new decoding
+                HMM(S, lambda s1, s2, k, track: 1.0 / (1 + (s1 + 2 * s2) % 3), lambda s, y, k, track: 1.0 / (1 + s % 2)).estimate(tr, "obs", verbose=0)
+                e["hist"] = "decoded before"
             hmm.estimate(tr, "obs", verbose=e["verbose"])
             inf = [tr["hmm_inference", k] for k in range(T)]
             last = tr["hmm_cost", T - 1]
